@@ -88,7 +88,8 @@ def run_history(mod, script, text, cmds, free, tagline, st, viol, ctx, budget=40
         arg = c[1] if len(c) > 1 else None
         line = name if arg is None else f'{name} {arg}'
         fin0 = s.finished
-        s0 = stmt_key(s.cur_stmt())
+        rec0 = s.cur_stmt()
+        s0 = stmt_key(rec0)
         d0 = s.frame_depth()
         try:
             ins0 = s.cpu.get_instruction_at(s.cpu.pc)[0]
@@ -145,6 +146,13 @@ def run_history(mod, script, text, cmds, free, tagline, st, viol, ctx, budget=40
                 if len(tags) > 1:
                     viol.append(V('C12:step-ran-several-statements', f'{ctx}: {executed}: one step executed the tagged '
                                   f'statements {tags}', text=text, cmds=executed))
+                    return
+                if len(tags) == 1 and rec0 is not None and type(rec0.node).__name__ != 'PrintStmt':
+                    # the tagged PRINT ran inside a step that started in an enclosing statement (IF header, CASE clause...):
+                    # stepping did not stop *in* the simple statement before executing it
+                    viol.append(V(f'C12:step-skipped-a-statement:{type(rec0.node).__name__}', f'{ctx}: {executed}: stopped in the '
+                                  f'{type(rec0.node).__name__} of line {s0[2]}, one step then executed the PRINT with tag {tags[0]} '
+                                  f'(line {tagline[tags[0]]}) without stopping in it first', text=text, cmds=executed))
                     return
                 if len(tags) == 1 and s0 is not None and s0[2] != tagline[tags[0]]:
                     viol.append(V('C12:step-stop-line', f'{ctx}: {executed}: stopped at line {s0[2]}, the step then executed the '
